@@ -182,7 +182,8 @@ def decide(rep, exe, results, proof_ok, proof_log, label=""):
 def check(tier):
     rep = vlib.Report(PROP, tier, "proof")
     rng = random.Random(rep.seed)
-    st = vlib.proof_stage(rep, "Properties_C02.v", ["tmpl"])
+    import tparse
+    st = vlib.proof_stage(rep, "Properties_C02.v", ["tmpl", "tparse"], tables=(("Tables", "gentables.cpp"),) + tuple(tparse.TABLES))
     exe, msg = build("sse2")
     if exe is None:
         rep.violation({"broken": "cpp/drv_tmpl.cpp does not build against the current tree", "log": msg}, no_input=True)
